@@ -25,7 +25,7 @@ struct T
 typedef Array<T> A;
 
 #ifndef NV_AK
-#define NV_AK 4
+#define NV_AK 5
 #endif
 #ifdef NV_N /* element count fixed per unit: a symbolic count makes the storage size symbolic, which cbmc does not finish */
 #define NV_ARRAY_INPUTS() const usize n = NV_N; NV_INPUT_ARR(long, vals, NV_AK)
@@ -56,7 +56,7 @@ void h_b_append()
     fill(a, n, vals);
     NV_CHECK(equals_model(a, n, vals), "Array::append: the reference sequence, in order");
     NV_CHECK(g_live == (long)n, "Array::append / reserve: exactly size() elements alive (moved elements destroyed once)");
-    if(n == 4) { NV_REACH("b_append.grown"); }
+    if(n >= 4) { NV_REACH("b_append.grown"); }
   }
   NV_CHECK(g_live == 0, "~Array: every element destroyed exactly once");
 }
